@@ -430,7 +430,11 @@ func (c *FnCtx) emitLibAxioms() {
 				}
 			}
 			defer func() { c.pkg = savePkg }()
-			t := c.specEval(st, ax.Expr, map[string]*Term{}, nil)
+			c.inAxiom = true
+			t := func() *Term {
+				defer func() { c.inAxiom = false }()
+				return c.specEval(st, ax.Expr, map[string]*Term{}, nil)
+			}()
 			c.pre = savePre
 			for hn := range st.heap {
 				if !strings.HasPrefix(hn, "G:") {
